@@ -40,3 +40,19 @@ Theorem C08_newest_is_upgraded : forall l b, pick_newest l = Some b ->
   In b l /\ forall a, In a l -> snap_lt b a = false.
 Proof. exact pick_newest_max. Qed.
 Print Assumptions C08_newest_is_upgraded.
+
+(* Whatever is left of the old directory when its removal is interrupted -- any number of
+   entries, i.e. any subset unlinked in any order -- every restart completes the upgrade:
+   after the 7->8 rename (old = the v7 directory) ... *)
+Theorem C08_any_remainder_of_v7 : forall n8, n8 <> 0 -> forall left tmpfile s,
+  reach (open_node n8) (after_rename8 n8 left tmpfile) s ->
+  exists f, result (open_node n8) s = Some f /\ upgraded f = true.
+Proof. exact any_remainder_of_v7_only. Qed.
+Print Assumptions C08_any_remainder_of_v7.
+
+(* ... and after the 8->10 plan's rename (old = the v8 directory). *)
+Theorem C08_any_remainder_of_v8 : forall n8, n8 <> 0 -> forall left s,
+  reach (open_node n8) (after_rename10 left) s ->
+  exists f, result (open_node n8) s = Some f /\ upgraded f = true.
+Proof. exact any_remainder_of_v8_only. Qed.
+Print Assumptions C08_any_remainder_of_v8.
